@@ -23,7 +23,20 @@ const SPECIALS: [u32; 10] = [
 /// Six vectors per dimension that together place every special value at the first, a middle,
 /// the 64th/65th and the last position.
 pub fn special_vectors(dim: usize) -> Vec<Vec<u32>> {
-    (0..6).map(|k| (0..dim).map(|j| SPECIALS[(j + 3 * k) % 10]).collect()).collect()
+    let mut v: Vec<Vec<u32>> = (0..6).map(|k| (0..dim).map(|j| SPECIALS[(j + 3 * k) % 10]).collect()).collect();
+    // the second vector of the menu equals the first one up to the sign of its zeros and the
+    // payload of its NaNs: overwriting one by the other changes bits but not IEEE equality
+    let twin: Vec<u32> = v[0]
+        .iter()
+        .map(|b| match *b {
+            0x0000_0000 => 0x8000_0000,
+            0x8000_0000 => 0x0000_0000,
+            0x7fc0_0001 => 0x7fc0_0002,
+            x => x,
+        })
+        .collect();
+    v.insert(1, twin);
+    v
 }
 
 fn plain_vectors(dim: usize) -> Vec<Vec<u32>> {
@@ -39,7 +52,7 @@ fn build(index: u16, n_trees: Option<usize>, split_after: Option<usize>, cancel_
     }
 }
 
-fn run_txn(report: &mut Report, property: &str, runs: Vec<(TxnCfg, Caps)>) {
+pub fn run_txn(report: &mut Report, property: &str, runs: Vec<(TxnCfg, Caps)>) {
     let mut descr = Vec::new();
     for (cfg, caps) in runs {
         let label = cfg.label.clone();
@@ -57,7 +70,40 @@ fn run_txn(report: &mut Report, property: &str, runs: Vec<(TxnCfg, Caps)>) {
         );
         record(report, &label, &o);
     }
-    report.cov("bounds", serde_json::Value::from(descr));
+    let prev = report.coverage.remove("bounds");
+    let mut all = match prev {
+        Some(serde_json::Value::Array(a)) => a,
+        _ => Vec::new(),
+    };
+    all.extend(descr);
+    report.cov("bounds", serde_json::Value::from(all));
+}
+
+/// C01 on several indexes: the same kind of histories interleaved on two indexes at the
+/// extremes of the u16 range, with the structure and exact-search oracles on every index that opens.
+pub fn c01_two_index_cfg(metric: Metric, depth: usize) -> TxnCfg {
+    let dim = 2;
+    let vecs = plain_vectors(dim);
+    let mut menu = Vec::new();
+    for index in [0u16, 65535u16] {
+        for (k, id) in [0u32, 1, 2, u32::MAX].iter().enumerate() {
+            menu.push(Action::Add { index, id: *id, vec: vecs[k % 3].clone() });
+        }
+        menu.push(Action::Del { index, id: 0 });
+        menu.push(Action::Del { index, id: u32::MAX });
+        menu.push(build(index, Some(2), Some(1), None));
+        menu.push(build(index, None, None, None));
+    }
+    TxnCfg {
+        indexes: vec![(0, metric, dim), (65535, metric, dim)],
+        menu,
+        prefix: Vec::new(),
+        transactions: false,
+        max_depth: depth,
+        obs: TxnObs { forest: true, isolation: true, ..Default::default() },
+        probe_ids: vec![0, 1, 2, u32::MAX],
+        label: format!("two-indexes-{}-depth{depth}", metric.short()),
+    }
 }
 
 fn caps(secs: u64) -> Caps {
